@@ -101,7 +101,8 @@ def mesh_point(rng, depth):
 
 SPECIAL = [(0.0, 0.0), (90.0, 0.0), (180.0, 0.0), (270.0, 0.0), (360.0, 0.0), (0.0, 90.0), (0.0, -90.0),
            (123.0, 90.0), (45.0, 0.0), (135.0, 0.0), (225.0, 0.0), (315.0, 0.0), (0.0, 45.0), (90.0, -45.0),
-           (45.0, 35.264389682754654), (359.99999999999994, 0.0), (5e-324, 0.0), (180.0, 90.0), (270.0, -90.0)]
+           (45.0, 35.264389682754654), (359.99999999999994, 0.0), (5e-324, 0.0), (180.0, 90.0), (270.0, -90.0),
+           (-0.0, -0.0), (0.0, -0.0), (360.0, -0.0), (-0.0, 90.0), (180.0, -0.0), (-0.0, 45.0)]
 TINY = [0.0, 1e-15, -1e-15, 1e-13, -1e-13, 1e-11, -1e-11, 1e-9, -1e-9, 1e-7, -1e-7, 1e-5, -1e-5]
 
 
